@@ -517,7 +517,9 @@ static int vsprcatf_core(
                               FormatContext.Arg[1] ? FormatContext.Arg[1] : 10,
                               NumPadZeros, FormatContext.ForceLeadZero,
                               FormatContext.ForceUpper ? 'A' : HexStartCharacter,
-                              SplitByteCharacter);
+                              /* %d is used for counters, line numbers and generated symbol
+                                 names, never for byte dumps: */
+                              FormatContext.Signed ? '\0' : SplitByteCharacter);
                 if (Cnt > (int)sizeof(Str)) {
                     Cnt = sizeof(Str);
                 }
